@@ -195,10 +195,14 @@ func (db *DB) rawset(entry types.Entry) {
 		db.memtable.freeze()
 		imt := db.memtable
 
-		db.flushC <- imt
+		// publish the immutable and the new memtable before the flusher can see it,
+		// readers hold db.mu while they walk memtable and immutables
+		db.mu.Lock()
 		db.immutables.PushBack(imt)
-
 		db.memtable = db.memtable.reset()
+		db.mu.Unlock()
+
+		db.flushC <- imt
 	}
 }
 
@@ -224,7 +228,8 @@ LOOP:
 			db.manager.checkAndCompact()
 
 			db.mu.Lock()
-			db.immutables.Remove(db.immutables.Back())
+			// immutables are flushed in the order they were frozen (oldest first)
+			db.immutables.Remove(db.immutables.Front())
 			db.mu.Unlock()
 
 			if closed && len(db.flushC) == 0 {
